@@ -5,6 +5,8 @@ import os
 import sys
 from fractions import Fraction
 
+from symex import hygiene
+
 REPO = os.environ.get("VERIF_REPO", "/repo")
 
 
@@ -199,6 +201,7 @@ def enumerate_shard(H, params):
     while work:
         prefix = work.pop()
         ctx = EnumCtx(prefix)
+        hygiene.reset_process_state()
         try:
             res = H.scenario(ctx, params)
             outcome = ("ok", res)
